@@ -115,6 +115,45 @@ theorem workPrec_gt (est : Est) (p : Nat) (x : FRepr) (b : Bool) :
   · simp only [lnWorkPrec]; omega
   · simp only [iacothWorkPrec]; omega
 
+
+/-! ### the exactness clause on the mirror: `Exact` comes from the shortcuts only -/
+
+/-- the mirrored `exp_internal` behind its guards never reports `Exact` (`mark_inexact`; exp of a non-zero float is
+    irrational) -/
+theorem expBody_never_exact (fuel : Nat) (E : Env) (p : Nat) (x : FRepr) (minusOne : Bool) (v : FBigM)
+    (fl : Option Rounding) (tr : Trace) (h : expBody fuel E p x minusOne = .ok ((v, fl), tr)) : fl ≠ none :=
+  Dashu.Proofs.Trans.Series.expBody_flag fuel E p x minusOne v fl tr h
+
+/-- the mirrored `ln_internal` behind its guards never reports `Exact` -/
+theorem lnBody_never_exact (fuel : Nat) (E : Env) (p : Nat) (x : FRepr) (onePlus : Bool) (v : FBigM)
+    (fl : Option Rounding) (tr : Trace) (h : lnBody fuel E p x onePlus = .ok ((v, fl), tr)) : fl ≠ none :=
+  Dashu.Proofs.Trans.Series.lnBody_flag fuel E p x onePlus v fl tr h
+
+/-- `Context::exp` / `exp_m1` (mirror with guards): flagged `Exact` only for `x = 0` -/
+theorem expFull_exact_only_zero (fuel : Nat) (E : Env) (p : Nat) (x : FRepr) (minusOne : Bool) (v : FBigM) (tr : Trace)
+    (h : expFull fuel E p x minusOne = .ok ((v, none), tr)) : x.isZero = true :=
+  Dashu.Proofs.Trans.Series.expFull_flag fuel E p x minusOne v tr h
+
+/-- `Context::ln` / `ln_1p` (mirror with guards): flagged `Exact` only for `ln 1` and `ln_1p 0` -/
+theorem lnFull_exact_only_shortcut (fuel : Nat) (E : Env) (p : Nat) (x : FRepr) (onePlus : Bool) (v : FBigM) (tr : Trace)
+    (h : lnFull fuel E p x onePlus = .ok ((v, none), tr)) :
+    ((onePlus && x.isZero) || (!onePlus && x.signif == 1 && x.exp == 0)) = true :=
+  Dashu.Proofs.Trans.Series.lnFull_flag fuel E p x onePlus v tr h
+
+/-- the results of the mirrored bodies carry the precision of the context -/
+theorem body_prec (fuel : Nat) (E : Env) (p : Nat) (x y : FRepr) (b : Bool) (v : FBigM) (fl : Option Rounding) (tr : Trace) :
+    (expBody fuel E p x b = .ok ((v, fl), tr) → v.prec = p) ∧ (lnBody fuel E p x b = .ok ((v, fl), tr) → v.prec = p)
+      ∧ (powfBody fuel E p x y = .ok ((v, fl), tr) → v.prec = p) :=
+  ⟨Dashu.Proofs.Trans.Series.expBody_prec fuel E p x b v fl tr, Dashu.Proofs.Trans.Series.lnBody_prec fuel E p x b v fl tr,
+   Dashu.Proofs.Trans.Series.powfBody_prec fuel E p x y v fl tr⟩
+
+/-- `FBig::sub_ulp` (the stop threshold of the three series) is a power of the base not above
+    `B^(exponent + digits − precision − 1)`, for every sound `digits_lb` estimate ("guaranteed to be smaller than ulp()") -/
+theorem subUlp_le (E : Env) (h : DlbSound E.B E.est.dlb) (x : FBigM) :
+    (fSubUlp E x).signif = 1 ∧
+      (fSubUlp E x).exp ≤ x.repr.exp + (digitsI E.B x.repr.signif : Int) - (x.prec : Int) - 1 :=
+  Dashu.Proofs.Trans.Series.fSubUlp_le E h x
+
 /-! non-vacuity: the loops do end on concrete inputs (base 10, mode HalfEven, a sound estimate oracle) -/
 
 /-- an oracle built from exact digit counts (sound for `dub`/`dlb`; the driver uses the `f32` replica instead) -/
@@ -135,5 +174,12 @@ def E10 : Env := ⟨10, .halfEven, coarseNone, exactEst 10⟩
 /-- `iacoth(6)` at 5 digits ends (well within 40 steps) -/
 example : (match iacoth 40 E10 5 6 with | .ok _ => true | .error _ => false) = true := by
   decide +kernel
+
+/-- `ln 2` and `exp 1` at 4 digits run to completion through the mirrored bodies (and are flagged inexact) -/
+example : (match lnBody 60 E10 4 ⟨2, 0⟩ false with | .ok r => r.1.2.isSome | .error _ => false) = true := by
+  decide +kernel
+example : (match expBody 60 E10 4 ⟨1, 0⟩ false with | .ok r => r.1.2.isSome | .error _ => false) = true := by
+  decide +kernel
+example : DlbSound 10 (exactEst 10).dlb := fun _ => Nat.sub_le _ _
 
 end Dashu.Props.C11Series
